@@ -39,12 +39,19 @@ structure Shape where
   /-- `vbi_search_next`, direction change: `stop_subno[0] = start_subno`; `false`:
       `stop_subno[0] = (start_subno == VBI_ANY_SUBNO) ? 0 : start_subno` -/
   turnKeeps : Bool
+  /-- line anchors (finding C17-D8 and its repair fixes/C17-line-anchors.diff): the URE_NOTBOL flag `search_page_fwd` /
+      `search_page_rev` hand to ure_exec says whether the text handed over begins INSIDE a row
+      (`first[-1] != SEPARATOR` resp. `haystack[pos - 1] != SEPARATOR`); `false`: search_page_fwd always hands 0,
+      search_page_rev URE_NOTBOL for every `pos > 0` -/
+  anchors : Bool
 deriving DecidableEq, Repr
 
-/-- the code with finding C17-D7 -/
-def Shape.unrepaired : Shape := ⟨false, false⟩
-/-- the code after fixes/C17-turn-3f7f.diff -/
-def Shape.repaired : Shape := ⟨true, true⟩
+/-- the code with finding C17-D7 (and C17-D8) -/
+def Shape.unrepaired : Shape := ⟨false, false, false⟩
+/-- the code after fixes/C17-turn-3f7f.diff (finding C17-D8 still in) -/
+def Shape.repaired : Shape := ⟨true, true, false⟩
+/-- the code after fixes/C17-turn-3f7f.diff and fixes/C17-line-anchors.diff -/
+def Shape.anchored : Shape := ⟨true, true, true⟩
 def FIRST_ROW : Int := 1
 def LAST_ROW : Int := 24
 def SEPARATOR : Nat := 0x0A
@@ -448,30 +455,49 @@ def stopFwd (s : SearchSt) (pgno : Nat) (e : Entry) (wrapped : Bool) : Bool :=
 def cursorRow (s : SearchSt) (pgno : Nat) (e : Entry) : Int :=
   if key pgno e.subno = key s.startPgno s.startSubno then s.row0 else -1
 
+/-- the haystack position `pos` lies inside a row: `pos > 0 && haystack[pos - 1] != SEPARATOR` -/
+def insideRow (hay : List Nat) (pos : Nat) : Bool :=
+  decide (pos > 0) && (hay.getD (pos - 1) SEPARATOR != SEPARATOR)
+
+/-- flags `search_page_fwd` hands to ure_exec.  As found (C17-D8): the variable `flags` is URE_NOTBOL behind a character
+    and 0 behind a row separator while the haystack is built - at the call it describes the END of the haystack, always
+    behind a separator: 0.  Repaired: `flags = (first > s->haystack && first[-1] != SEPARATOR) ? URE_NOTBOL : 0` -/
+def fwdFlags (sh : Shape) (hay : List Nat) (first : Nat) : Flags :=
+  if sh.anchors then { notBol := insideRow hay first } else {}
+
+/-- flags of the repeated ure_exec in `search_page_rev` at offset `pos`.  As found: `(pos > 0) ? (flags | URE_NOTBOL) :
+    flags`; repaired: `(pos > 0 && s->haystack[pos - 1] != SEPARATOR) ? (flags | URE_NOTBOL) : flags` -/
+def revFlags (sh : Shape) (hay : List Nat) (ne : Bool) (pos : Nat) : Flags :=
+  { notBol := if sh.anchors then insideRow hay pos else decide (pos > 0), notEol := ne }
+
 /-- `search_page_fwd` (progress callback NULL, formatting succeeds) -/
-def pageFwd (exec : Exec) : Callback SearchSt := fun s pgno e wrapped =>
+def pageFwd (sh : Shape) (exec : Exec) : Callback SearchSt := fun s pgno e wrapped =>
   if stopFwd s pgno e wrapped then (-1, s) else
   if e.func ≠ FUNC_LOP then (0, s) else
   let s1 := { s with pgPgno := pgno, pgSubno := e.subno, hl := [] }
   if cursorRow s pgno e > LAST_ROW then (0, s1) else
   let hf := hayFwd e.text (cursorRow s pgno e) s.col0
   if hf.2 ≥ hf.1.length then (0, s1) else
-  match exec {} (hf.1.drop hf.2) with
+  match exec (fwdFlags sh hf.1 hf.2) (hf.1.drop hf.2) with
   | none => (0, s1)
   | some (ms, me) => (1, highlight s1 pgno e hf.2 ms me)
 
-/-- the repeated `ure_exec` of search_page_rev: last match in the haystack -/
-def revMatches (exec : Exec) (hay : List Nat) (ne : Bool) : Nat → Nat → Nat → Nat → Option (Nat × Nat × Nat)
-  | 0, _, _, _ => none                       -- out of fuel (an empty match repeats forever)
-  | f + 1, i, ms, me =>
-    if me < hay.length then
-      match exec { notBol := me > 0, notEol := ne } (hay.drop me) with
+/-- the repeated `ure_exec` of search_page_rev: last match in the haystack.  `pos` = where the next exec begins:
+    `pos = (me > pos) ? me : pos + 1` (b5116c9: an empty match must not keep the loop at the same place), so the
+    loop ends after at most `hay.length` rounds; `none` = out of fuel (never with fuel `hay.length + 2`:
+    `revMatches_total`) -/
+def revMatches (sh : Shape) (exec : Exec) (hay : List Nat) (ne : Bool) : Nat → Nat → Nat → Nat → Nat → Option (Nat × Nat × Nat)
+  | 0, _, _, _, _ => none
+  | f + 1, i, ms, me, pos =>
+    if pos < hay.length then
+      match exec (revFlags sh hay ne pos) (hay.drop pos) with
       | none => some (i, ms, me)
-      | some (ms1, me1) => revMatches exec hay ne f (i + 1) (me + ms1) (me + me1)
+      | some (ms1, me1) =>
+        revMatches sh exec hay ne f (i + 1) (pos + ms1) (pos + me1) (if pos + me1 > pos then pos + me1 else pos + 1)
     else some (i, ms, me)
 
 /-- `search_page_rev`; return value 2 stands for "did not return" (fuel of `revMatches` exhausted) -/
-def pageRev (exec : Exec) : Callback SearchSt := fun s pgno e wrapped =>
+def pageRev (sh : Shape) (exec : Exec) : Callback SearchSt := fun s pgno e wrapped =>
   let this := key pgno e.subno
   let start := key s.startPgno s.startSubno
   let stop := key s.stopPgno1 s.stopSubno1
@@ -481,7 +507,7 @@ def pageRev (exec : Exec) : Callback SearchSt := fun s pgno e wrapped =>
   let row : Int := if this = start then s.row1 else 100
   let (hay, ne) := hayRev e.text row s.col1
   if hay.length = 0 then (0, s) else
-  match revMatches exec hay ne (hay.length + 2) 0 0 0 with
+  match revMatches sh exec hay ne (hay.length + 2) 0 0 0 0 with
   | none => (2, s)
   | some (i, ms, me) =>
     if i = 0 then (0, s) else (1, highlight s pgno e 0 ms me)
@@ -513,8 +539,8 @@ def prepare (sh : Shape) (s : SearchSt) (dirArg : Int) : SearchSt :=
              stopPgno1 := s.startPgno, stopSubno1 := s.startSubno }
   else s
 
-def callbackOf (exec : Exec) (dirArg : Int) : Callback SearchSt :=
-  if dirArg > 0 then pageFwd exec else pageRev exec
+def callbackOf (sh : Shape) (exec : Exec) (dirArg : Int) : Callback SearchSt :=
+  if dirArg > 0 then pageFwd sh exec else pageRev sh exec
 
 /-- the `switch` on the return value of `_vbi_cache_foreach_page` -/
 def statusOf (r : Int) : Res :=
@@ -528,7 +554,7 @@ def statusOf (r : Int) : Res :=
 /-- `vbi_search_next` -/
 def searchNext (sh : Shape) (exec : Exec) (fuel : Nat) (c : Cache) (s : SearchSt) (dirArg : Int) : NextOut :=
   let s1 := prepare sh s dirArg
-  let w := walk sh (callbackOf exec dirArg) fuel c s1 s1.startPgno s1.startSubno (dirOf dirArg)
+  let w := walk sh (callbackOf sh exec dirArg) fuel c s1 s1.startPgno s1.startSubno (dirOf dirArg)
   match w.res with
   | .ret r => ⟨statusOf r, if r = -1 then { w.st with dir := 0 } else w.st, w.cache⟩
   | other => ⟨other, w.st, w.cache⟩
